@@ -135,3 +135,27 @@ def _(rng):
 def _(rng):
     lens = [rng.randint(0, 6) for _ in range(rng.randint(0, 6))]
     return dict(joint_labels=[rng.randint(0, 4) for _ in range(sum(lens))], stacked_series_lengths=lens)
+
+L = 'fast_ticc.cluster_label_assignment.'
+
+
+def _cost_table(rng):
+    t, k = rng.randint(1, 6), rng.randint(1, 4)
+    mode = rng.random()
+    if mode < 0.3:      # many ties
+        return np.array([[float(rng.randint(0, 2)) for _ in range(k)] for _ in range(t)])
+    if mode < 0.5:      # huge spread
+        return np.array([[float(rng.choice([-1e6, 0, 1, 1e6, 3])) for _ in range(k)] for _ in range(t)])
+    return farr(rng, t, k)
+
+
+@gen(L + 'assign_point_cluster_labels#scalar')
+def _(rng):
+    return dict(label_assignment_cost=_cost_table(rng), label_switching_cost=float(rng.choice([0, 0, 0.5, 1, 2, 7, 100])))
+
+
+@gen(L + 'assign_point_cluster_labels#vector')
+def _(rng):
+    c = _cost_table(rng)
+    return dict(label_assignment_cost=c,
+                label_switching_cost=np.array([float(rng.choice([0, 0.5, 1, 3, 10])) for _ in range(c.shape[0])]))
